@@ -268,10 +268,12 @@ impl<'a, T> ChordsV2<'a, T> {
         }
         self.ticks_until_next_state_change = 0;
         self.prev_active_layer = active_layer;
-        debug_assert!(self.queue.capacity() < 255);
-        self.prev_queue_len = self.queue.len() as u8;
 
         self.drain_virtual_keys(drainq);
+        // Virtual key events never stay in the queue: counting them would make the next one look
+        // like "nothing new" and hold it back while a chord key is pending.
+        debug_assert!(self.queue.capacity() < 255);
+        self.prev_queue_len = self.queue.len() as u8;
         self.drain_releases(drainq);
         self.process_presses(active_layer);
     }
